@@ -41,6 +41,9 @@ def reference_round(grad_fn, copt, sopt, hp, state, clients):
     steps = 0
     for batch in ds.shuffle_repeat_batch(hp):
       steps += 1
+      if len(batch['y']) != hp.batch_size:
+        raise AssertionError(f'a client with {len(ds)} examples is trained on a batch of {len(batch["y"])} rows; every batch of its '
+                             f'stream has batch_size = {hp.batch_size} rows (short datasets wrap around)')
       rng, use = jax.random.split(rng)
       g = grad_fn(p, batch, use)
       os_, p = copt.apply(g, os_, p)
@@ -127,6 +130,7 @@ def sweep_round(tier, seed):
       yield dict(rounds=[[3, 0, 5], [0, 0], [4, 1]], batch_size=2, copt=copt, sopt=sopt, seed=seed)
       yield dict(rounds=[[1], [], [2, 7]], batch_size=3, copt=copt, sopt=sopt, seed=seed + 1, epochs=2)
   yield dict(rounds=[[5, 4]], batch_size=4, copt='sgd', sopt='sgd', seed=seed, drop=True)
+  yield dict(rounds=[[3, 1, 2]], batch_size=7, copt='sgd', sopt='sgd', seed=seed, epochs=2)
   yield dict(rounds=[[5, 0, 3], [4]], batch_size=2, copt='sgd', sopt='sgd', seed=seed, epochs=2, keyed=True)
   yield dict(rounds=[[5, 2, 7]], batch_size=3, copt='sgd', sopt='sgd', seed=seed, epochs=3)
   yield dict(rounds=[[5, 2, 7]], batch_size=3, copt='momentum', sopt='sgd', seed=seed, epochs=2, drop=True)
